@@ -668,12 +668,13 @@ theorem conc_sure_peers_in_every_log (init : List Nat) (phases : List (List COp)
     cfgHas (cfgAt log) j = (cFinal (cInit init) phases).members.contains j :=
   cLogs_surePeers init phases log h j hj
 
-/-- `C17_conc_full` RESTRICTED TO THE MEMBERSHIP CLAUSES OF THE SYNC POINT (`agree`, `ack_in_all`), for every concurrent
+/-- `C17_conc_full` RESTRICTED TO THREE OF THE FOUR SYNC-POINT CLAUSES (`agree`, `ack_in_all`, `pinset_agree`), for every concurrent
     case: whatever the model admits, the remaining members the bookkeeping is sure of report ONE peerset, which contains
-    every surely-added peer and nothing but listed or unsure peers. Not covered: `pinset_agree`, `pinset_kept`, and the
+    every surely-added peer and nothing but listed or unsure peers, and ONE pinset. Not covered: `pinset_kept`, and the
     per-call clauses `add_present_noop` / `rm_absent_noop` / `last_peer_kept`. -/
 theorem conc_allowed_membership_holds (k : CCase) (ha : cAllowed k = true) :
-    ∀ c ∈ cCheckObs k.init (cFinal (cInit k.init) k.phases) k.obs, (c.1 = "agree" ∨ c.1 = "ack_in_all") → c.2 = true := by
+    ∀ c ∈ cCheckObs k.init (cFinal (cInit k.init) k.phases) k.obs,
+      (c.1 = "agree" ∨ c.1 = "ack_in_all" ∨ c.1 = "pinset_agree") → c.2 = true := by
   unfold cAllowed at ha
   obtain ⟨log, hlog, hobs⟩ := List.any_eq_true.1 ha
   have S := cLogs_surePeers k.init k.phases log hlog
@@ -683,14 +684,14 @@ theorem conc_allowed_membership_holds (k : CCase) (ha : cAllowed k = true) :
   obtain ⟨h1, _⟩ := hobs
   have key : ∀ m ∈ k.obs.members.filter
       (fun m => k.init.contains m.id && s.members.contains m.id && !s.unsureP.contains m.id),
-      m.peers = cfgIds (cfgAt log) := by
+      m.peers = cfgIds (cfgAt log) ∧ canonMap m.pins = canonMap (pinsAt log) := by
     intro m hm
     obtain ⟨hm1, hm2⟩ := List.mem_filter.1 hm
     simp only [Bool.and_eq_true, Bool.not_eq_true'] at hm2
     have hc : cfgHas (cfgAt log) m.id = true := by rw [S m.id hm2.2]; exact hm2.1.2
     have := h1 m hm1
     simp only [hm2.1.1, hc, Bool.and_self, Bool.not_true, Bool.false_or, Bool.and_eq_true, beq_iff_eq] at this
-    exact this.1.1
+    exact ⟨this.1.1, this.1.2⟩
   intro c hc hn
   simp only [cCheckObs, List.mem_cons, List.not_mem_nil, or_false] at hc
   generalize k.obs.members.filter
@@ -703,10 +704,10 @@ theorem conc_allowed_membership_holds (k : CCase) (ha : cAllowed k = true) :
       | nil => cases hm
       | cons f tl => exact ⟨f, rfl⟩
     have hfm : f ∈ R := List.mem_of_mem_head? hf
-    rw [hf]; simp [key m hm, key f hfm]
+    rw [hf]; simp [(key m hm).1, (key f hfm).1]
   · simp only [List.all_eq_true, Bool.and_eq_true, Bool.or_eq_true]
     intro m hm
-    rw [key m hm]
+    rw [(key m hm).1]
     constructor
     · intro j hjm
       cases hu : s.unsureP.contains j with
@@ -723,8 +724,15 @@ theorem conc_allowed_membership_holds (k : CCase) (ha : cAllowed k = true) :
         left
         rw [← S j hu]
         unfold cfgHas; exact List.contains_iff_mem.2 hjc
-  · simp only at hn; rcases hn with h | h <;> exact absurd h (by decide)
-  · simp only at hn; rcases hn with h | h <;> exact absurd h (by decide)
+  · simp only [List.all_eq_true]
+    intro m hm
+    obtain ⟨f, hf⟩ : ∃ f, R.head? = some f := by
+      cases R with
+      | nil => cases hm
+      | cons f tl => exact ⟨f, rfl⟩
+    have hfm : f ∈ R := List.mem_of_mem_head? hf
+    rw [hf]; simp [(key m hm).2, (key f hfm).2]
+  · simp only at hn; rcases hn with h | h | h <;> exact absurd h (by decide)
 
 /-- a pin at the leader races with the leader's own removal: acknowledged pin present in either order -/
 def concCase (pins : PinMap) : CCase :=
